@@ -242,6 +242,10 @@ class Circuit:
             switch_list_1 = np.arange(self._num_modes)
             switch_list_2 = np.arange(self._num_modes)
             switch_list_1[[0, t1]] = switch_list_1[[t1, 0]]
+            # the two swaps are composed: if the second mode sat at position 0,
+            # the first swap has moved it to position t1
+            if t2 == 0:
+                t2 = t1
             switch_list_2[[1, t2]] = switch_list_2[[t2, 1]]
 
             self._state = self._state.transpose(switch_list_1)
